@@ -432,6 +432,12 @@ Proof. reflexivity. Qed.
 Lemma last_style_set st s : evs (set_style st s) = EStyle (sty (set_style st s)) :: evs s.
 Proof. reflexivity. Qed.
 
+(* Terminal.Resize ends with the cursor and the rendition of the screen that is shown *)
+Lemma resize_announces w h t :
+  let t' := resize w h t in
+  exists l, tlog t' = EStyle (sty (active t')) :: ECursor (cx (active t')) (cy (active t')) :: l.
+Proof. cbv zeta. unfold resize, log_ev, active. cbn [tmain talt onalt tlog]. eexists. reflexivity. Qed.
+
 (* the primitives, collected *)
 Lemma framed_primitives :
   (forall r x y new, Framed (fun s => write_row_cells r x y new s)) /\
